@@ -21,7 +21,7 @@ RULE = ("schemas with nested schemas, config types, lists of schemas / config ty
         "cincoconfig.ValidationError (a ValueError), ref_path == the declared path (a.b[2].c, d[key]) and a message "
         "starting with that path (plus ' (name)' for a friendly name); non-trivial = >= 3 rejections judged over >= 2 "
         "routes; distinct = distinct (schema, probes)")
-REQUIRED = ("duplicate_key_documents", "moved_object_probes:list-item", "moved_object_probes:section", "schemas_with_premounted_fragments", "object_item_probes", "reordered_list_probes", "pos:dict-key", "rejections_judged", "route:attr", "route:dotted", "route:ctor", "route:load_tree", "route:loads", "pos:nested",
+REQUIRED = ("sections_nested_in_a_section_of_the_same_name", "cases_with_library_warnings_as_errors", "duplicate_key_documents", "moved_object_probes:list-item", "moved_object_probes:section", "schemas_with_premounted_fragments", "object_item_probes", "reordered_list_probes", "pos:dict-key", "rejections_judged", "route:attr", "route:dotted", "route:ctor", "route:load_tree", "route:loads", "pos:nested",
             "pos:ctype", "pos:list-item", "pos:dict-entry", "pos:list-scalar", "pos:subconfig-slot", "friendly_names_judged",
             "after_prior_load")
 ASSUMPTIONS = ["unknown keys (AttributeError) and non-map top-level documents are not 'a value for a declared field'",
@@ -39,6 +39,16 @@ def generate(rng, ctx):
     for path, nd in spec.walk(schema):
         if nd["kind"] == "field" and rng.random() < 0.3:
             nd["params"]["name"] = "Friendly %s" % nd["key"].title()
+    # a section inside a section of the same name (log.log): the path of either must be spelled in full
+    same_name = 0
+    if rng.random() < 0.3:
+        for p0, nd in spec.walk(schema):
+            if nd["kind"] == "schema" and "[]" not in p0:
+                kids = [ch for ch in nd["fields"] if ch["kind"] in ("schema", "ctype")]
+                if kids and all(ch["key"] != nd["key"] for ch in nd["fields"]):
+                    rng.choice(kids)["key"] = nd["key"]
+                    same_name = 1
+                    break
     # include fields (at the root and in a section); the file they name does not exist
     incs = []
     if rng.random() < 0.35:
@@ -123,7 +133,9 @@ def generate(rng, ctx):
         probes.append({"pos": "include", "path": path, "bad": name, "routes": ["loads"], "index": 0, "nitems": 1, "equal_items": False,
                        "key": "k1", "fmt": rng.choice(FMT_FOR_LOADS), "prior_load": False, "reorder": None, "object_items": False,
                        "moved": False})
-    return {"schema": schema, "probes": probes, "mounted": mounted, "twins": twins}
+    return {"schema": schema, "probes": probes, "mounted": mounted, "twins": twins, "same_name": same_name,
+            # run with the library's own warnings turned into errors (pytest -W error, PYTHONWARNINGS=error)
+            "warnings_as_errors": rng.random() < 0.3}
 
 
 def probes(ctx):
@@ -195,6 +207,18 @@ def run(case, ctx, res):
     judged, routes_seen = 0, set()
     if case.get("mounted"):
         res.count("schemas_with_premounted_fragments")
+    if case.get("same_name"):
+        res.count("sections_nested_in_a_section_of_the_same_name")
+    import warnings
+
+    with warnings.catch_warnings():
+        if case.get("warnings_as_errors"):
+            warnings.filterwarnings("error", module=r"cincoconfig(\..*)?$")
+            res.count("cases_with_library_warnings_as_errors")
+        return _run(case, ctx, res, cc, env, rng, judged, routes_seen)
+
+
+def _run(case, ctx, res, cc, env, rng, judged, routes_seen):
     for pr in spec.resolve(case["probes"], {"$FX": ctx.sb.fx}):
         for route in pr["routes"]:
             drv = history.Driver(ctx, res, case["schema"], env)
